@@ -226,7 +226,17 @@ def gen_dissim(rng, kinds=None, labels=None, allow_component_delta=True):
         for i in range(k):
             for j in range(i):
                 m[i][j] = m[j][i] = round(rng.choice([0.0, 0.25, 0.5, 1.0, rng.random()]), 4)
-        return {"kind": kind, "cats": cats, "matrix": m, "delta": delta}
+        spec = {"kind": kind, "cats": cats, "matrix": m, "delta": delta}
+        r = rng.random()
+        if r < 0.3:      # the matrix as users write it down: whole numbers in an integer array, or a boolean "differs" table
+            dt = "int" if r < 0.2 else "bool"
+            for i in range(k):
+                for j in range(i):
+                    m[i][j] = m[j][i] = float(rng.choice([0, 1, 2, 3]) if dt == "int" else rng.choice([0, 1, 1]))
+            spec["matrix_dtype"] = dt
+        elif r < 0.4:
+            spec["matrix_dtype"] = "float64"
+        return spec
     if kind == "levenshtein":
         cats = list(labels or rng.sample(LABELS_REPEATS if rng.random() < 0.4 else LABELS_WORDS, rng.randint(1, 6)))
         rng.shuffle(cats)
@@ -237,6 +247,9 @@ def gen_dissim(rng, kinds=None, labels=None, allow_component_delta=True):
         p = None
         if rng.random() < 0.5:
             p = [float(rng.choice([0, 1, 2, 3, 5, 8, -2, 2.5, 10])) for _ in cats]
+            if rng.random() < 0.3:   # positions far from 0 (time stamps, ids): only their distances matter
+                base = rng.choice([1.7e9, 2.0 ** 24, 1e7, -3e8])
+                p = [base + float(rng.choice([0, 1, 2, 3, 5, 8, 60, 3600])) for _ in cats]
         return {"kind": kind, "cats": cats, "p": p, "delta": delta}
     if kind == "numerical":
         cats = list(labels or rng.sample(LABELS_NUM, rng.randint(1, 6)))
@@ -283,8 +296,9 @@ def build_dissim(dspec):
     if k == "absolute":
         return pa.AbsoluteCategoricalDissimilarity(delta_empty=d)
     if k == "precomputed":
+        dt = {"int": np.int64, "bool": np.bool_, "float64": np.float64}.get(dspec.get("matrix_dtype"), np.float32)
         return pa.PrecomputedCategoricalDissimilarity(SortedSet(dspec["cats"]),
-                                                      np.array(dspec["matrix"], dtype=np.float32), delta_empty=d)
+                                                      np.array(dspec["matrix"]).astype(dt), delta_empty=d)
     if k == "levenshtein":
         return pa.LevenshteinCategoricalDissimilarity(list(dspec["cats"]), delta_empty=d)
     if k == "ordinal":
